@@ -312,6 +312,14 @@ const classSignerList = "signers:validated-list-differs"
 // single transaction as a minimal input.
 func signersOracle(c *hx.Ctx, in *Input, m *ChildOut) bool {
 	bad := false
+	specCanonical := map[string]bool{}
+	for _, blk := range in.Blocks {
+		for _, t := range blk {
+			if strings.HasPrefix(t.Kind, "multisig-spec:") {
+				specCanonical[t.Raw] = true
+			}
+		}
+	}
 	for _, b := range m.Blocks {
 		for _, ts := range b.Signers {
 			c.Eval()
@@ -346,6 +354,29 @@ func signersOracle(c *hx.Ctx, in *Input, m *ChildOut) bool {
 					}
 					want[ka.ToHexString()] = true
 				}
+			}
+			if !canonical && specCanonical[ts.Raw] {
+				// canonical by construction (written by the spec-level encoder of msgen.go), yet the tree's
+				// own builder re-encodes the parsed keys to a different script: compare the two lists directly
+				c.Count("signers-oracle:checked-spec-encoded")
+				ms, ss := map[string]bool{}, map[string]bool{}
+				for _, a := range ts.Member {
+					ms[a] = true
+				}
+				for _, a := range ts.Syncer {
+					ss[a] = true
+				}
+				same := len(ms) == len(ss)
+				for a := range ms {
+					same = same && ss[a]
+				}
+				if !same {
+					bad = true
+					min := &Input{Kind: "chain", BookKey: in.BookKey, Blocks: [][]TxSpec{{{Raw: ts.Raw, Kind: "signers-oracle"}}}, Repeat: 1, Track: in.Track}
+					c.Fail(classSignerList, "standard (spec-encoded, sorted keys) witness scripts: the validator's signer list differs from the decoder's script hashes",
+						min, map[string]interface{}{"validator": ts.Member, "decoder": ts.Syncer}, "the same accounts")
+				}
+				continue
 			}
 			if !canonical {
 				c.Count("signers-oracle:skipped-noncanonical")
@@ -575,6 +606,10 @@ func Run(c *hx.Ctx) {
 	// 6. EVM reads of memory the frame never wrote: polluters before a process restart / in pre-executions
 	for i := 0; i < c.N(1, 4); i++ {
 		ins = append(ins, newGen(c.Rng, c.Count).evmMemoryChain(false), newGen(c.Rng, c.Count).evmMemoryChain(true))
+	}
+	// 7. standard m-of-n witnesses (n up to 16) written by an encoder independent of core/program
+	for i := 0; i < c.N(1, 3); i++ {
+		ins = append(ins, newGen(c.Rng, c.Count).multisigChain())
 	}
 	outs := runInputs(c, ins, 0, c.N(2, 4))
 	ms := int64(0)
